@@ -4,7 +4,7 @@ Exit codes of a check: 0 = everything explored agreed (known findings are
 printed as KNOWN-FINDING lines), 1 = violation (VIOLATION line printed),
 2 = infrastructure problem (never a violation).
 """
-import atexit, json, os, re, shutil, subprocess, sys, tempfile, time
+import atexit, json, os, re, shutil, subprocess, sys, tempfile, threading, time
 
 VERIF = os.path.dirname(os.path.dirname(os.path.abspath(__file__)))
 REPO = os.environ.get("VERIF_REPO", "/repo")   # development/mutation runs may point at a scratch worktree
@@ -46,6 +46,7 @@ class Ctx:
         self.known_hits = {}      # finding id -> count
         self.findings = load_findings(prop)
         self.n_tlc = 0
+        self.lock = threading.Lock()   # ctx.tlc may be called from several threads
         self.bins = {}
         self.notes = []
 
@@ -126,8 +127,10 @@ class Ctx:
             heap=None, expect_ok=True, simulate=None, depth_first=False):
         """Run TLC on spec/<module>.tla with spec/<cfg>; data: {filename: path} copied
         next to the spec. Returns dict(generated, distinct, out, ok, dir)."""
-        self.n_tlc += 1
-        d = self.path(f"tlc{self.n_tlc}-{module}", "x")
+        with self.lock:
+            self.n_tlc += 1
+            n_tlc = self.n_tlc
+        d = self.path(f"tlc{n_tlc}-{module}", "x")
         d = os.path.dirname(d)
         for f in os.listdir(SPEC):
             if f.endswith(".tla"):
@@ -150,7 +153,8 @@ class Ctx:
         if simulate:
             cmd += ["-simulate", simulate]
         cmd += (extra or []) + [module + ".tla"]
-        self.tlc_cmds.append("cd spec && tlc " + " ".join(cmd[cmd.index("-workers"):]).replace(d, "<scratch>"))
+        with self.lock:
+            self.tlc_cmds.append("cd spec && tlc " + " ".join(cmd[cmd.index("-workers"):]).replace(d, "<scratch>"))
         t = time.time()
         try:
             r = subprocess.run(cmd, cwd=d, capture_output=True, text=True, timeout=timeout)
@@ -167,9 +171,10 @@ class Ctx:
             gen = int(m2.group(1)); dist = dist or gen
         ok = r.returncode == 0 and "Error:" not in out
         log(f"TLC {module}/{cfg}: rc={r.returncode} generated={gen} distinct={dist} {time.time()-t:.1f}s")
-        self.states += dist
-        self.transitions += gen
-        self.tlc_runs.append(dict(module=module, cfg=cfg, generated=gen, distinct=dist, wall_s=round(time.time() - t, 1)))
+        with self.lock:
+            self.states += dist
+            self.transitions += gen
+            self.tlc_runs.append(dict(module=module, cfg=cfg, generated=gen, distinct=dist, wall_s=round(time.time() - t, 1)))
         if expect_ok and not ok:
             open(os.path.join(d, "tlc.out"), "w").write(out)
             keep = os.path.join(VERIF, "replay", self.prop, f"tlc-{module}-{cfg}.out")
